@@ -308,15 +308,39 @@ func ruleRawProvenance(c *Ctx) {
 				}
 			}
 		}
+		// any spelling of the emptiness tests (== 0, != 0, > 0, < 1)
+		fieldTerms := map[string]*Term{}
+		for _, l := range pr.Conds {
+			l.Atom.walk(func(x *Term) bool {
+				if x.Op == "len" && len(x.Args) == 1 {
+					for _, f := range []string{"RawBody", "GzipBody", "BrBody"} {
+						if isRespField(x.Args[0], f) {
+							fieldTerms[f] = x
+						}
+					}
+				}
+				return true
+			})
+		}
+		for f, lt := range fieldTerms {
+			if k, isZero := pr.Facts.Decide(eqTerm(lt, intTerm(0))); k {
+				v := !isZero
+				nonEmpty[f] = &v
+			}
+		}
 		r := pr.Results[0]
 		switch {
 		case isRespField(r, "RawBody"):
 			kinds["raw"] = true
 			// fine: either non-empty, or everything is empty
-			if nonEmpty["RawBody"] != nil && !*nonEmpty["RawBody"] {
+			rawKnownNonEmpty := nonEmpty["RawBody"] != nil && *nonEmpty["RawBody"]
+			if k, isZero := pr.Facts.Decide(eqTerm(&Term{Op: "len", Type: tInt, Args: []*Term{r}}, intTerm(0))); k && !isZero {
+				rawKnownNonEmpty = true
+			}
+			if !rawKnownNonEmpty {
 				for _, f := range []string{"GzipBody", "BrBody"} {
 					if nonEmpty[f] == nil || *nonEmpty[f] {
-						bad = append(bad, "returns the empty RawBody although "+f+" may hold the body on "+where)
+						bad = append(bad, "returns a RawBody that may be empty (e.g. the empty, non-nil slice a record restored from the store carries) although "+f+" may hold the body on "+where)
 					}
 				}
 			}
@@ -668,10 +692,14 @@ func ruleCompressVariants(c *Ctx) {
 				}
 			}
 		}
+		have := map[string]bool{}
 		for _, f := range []string{"GzipBody", "BrBody"} {
 			fv := c.P.StructField("cache", "HTTPResponse", f)
 			v := s.finalCell(pr.State, resp, fv)
 			produced := v.Op == "ext"
+			if k, isZero := pr.Facts.Decide(eqTerm(&Term{Op: "len", Type: tInt, Args: []*Term{v}}, intTerm(0))); produced || (k && !isZero) {
+				have[f] = true
+			}
 			if produced {
 				call := v.Args[0]
 				wantFn := map[string]string{"GzipBody": "Gzip", "BrBody": "Brotli"}[f]
@@ -700,6 +728,18 @@ func ruleCompressVariants(c *Ctx) {
 		}
 		if dropsRaw {
 			drops++
+		}
+		// a successful return leaves both variants or neither (neither: not compressible)
+		if len(pr.Results) == 1 && pr.Exit == "return" {
+			if k, isNil := pr.Facts.Decide(eqTerm(pr.Results[0], nilTerm(nil))); pr.Results[0].IsNil() || (k && isNil) {
+				if have["GzipBody"] != have["BrBody"] {
+					miss := "BrBody"
+					if have["BrBody"] {
+						miss = "GzipBody"
+					}
+					bad = append(bad, "returns success with one stored variant but without producing "+miss+" (that encoding is then compressed per request, or the other one is served instead) on "+where)
+				}
+			}
 		}
 	})
 	if drops == 0 {
